@@ -353,6 +353,9 @@ func (v wuint16) fill(data []byte, i int) int {
 }
 
 func (v *wuint16) UnmarshalBinary(data []byte) error {
+	if len(data) < 2 {
+		return unmarshalErr(v, "", "missing data")
+	}
 	*v = wuint16(binary.BigEndian.Uint16(data))
 	return nil
 }
@@ -380,6 +383,9 @@ func (v wuint32) fill(data []byte, i int) int {
 }
 
 func (v *wuint32) UnmarshalBinary(data []byte) error {
+	if len(data) < 4 {
+		return unmarshalErr(v, "", "missing data")
+	}
 	*v = wuint32(binary.BigEndian.Uint32(data))
 	return nil
 }
